@@ -14,6 +14,7 @@ var c17Tails = []string{
 	".a", ".b", ".a.b", ".a[0]", "[0]", "[-1]", "[0].a", ".a[*]", ".a[*].b", "[*]", "[*].a", ".*", ".*.a", ".a.*", "[?a]", "[?a].b", ".a[?@]", "[?@ == `1`]",
 	"[1:]", "[::-1].a", ".a[:1]", ".[a, b]", ".{x: a, y: b}", ".[a]", ".{x: a}", ".length(@)", ".type(@)", ".not_null(a, b)", ".to_array(a)", ".keys(@)",
 	".a.to_array(@)[*]", ".a.to_array(@)[0:]", ".a.keys(@)[*]", ".a.not_null(@, `[1]`)[*]", ".a.to_string(@)", ".a.type(@)", ".b.to_array(@)[*].a", ".a.length(to_array(@))",
+	"[127]", "[128]", "[200]", "[255]", "[256]", "[-128]", "[-129]", "[-256]", "[128].a", ".a[255]", ".b[200]", "[100:][130]",
 	".a | [0]", ".a || `\"dflt\"`", ".a && b", ".a == `1`", "[].a", ".a[]", "[*][0]", "[*].*", ".[a, b][0]", ".{x: a}.x",
 }
 
@@ -38,12 +39,28 @@ var c17DocsText = []string{
 	`{"a":{"x":{"a":1},"y":null,"z":{"a":null,"b":2}},"b":[{"a":{"p":1,"q":null}}]}`,
 }
 
+var c17FixedDocs = len(c17DocsText)
 var c17Docs []ref.V
 var c17Go []any
 
 func c17Setup(c *Ctx) {
 	if c17Docs != nil {
 		return
+	}
+	if len(c17DocsText) == c17FixedDocs {
+		// a document with long arrays (index literals around the 8-bit boundaries select something)
+		var a, b, ca strings.Builder
+		for i := 0; i < 300; i++ {
+			if i > 0 {
+				a.WriteByte(',')
+				b.WriteByte(',')
+				ca.WriteByte(',')
+			}
+			fmt.Fprintf(&a, `{"a":%d,"b":[%d]}`, i, i)
+			fmt.Fprintf(&b, "%d", 1000+i)
+			fmt.Fprintf(&ca, `[%d]`, i)
+		}
+		c17DocsText = append(c17DocsText, `{"a":[`+a.String()+`],"b":[`+b.String()+`],"c":{"a":[`+ca.String()+`],"b":[`+b.String()+`]}}`, `[`+a.String()+`]`)
 	}
 	for _, t := range c17DocsText {
 		v, err := ref.FromJSON(t)
@@ -336,7 +353,7 @@ func c17Random(c *Ctx, idx int) {
 func init() {
 	Register(&Property{
 		ID:            "C17",
-		Rule:          "identity schemata instantiated exhaustively over 15 bases x 40 selector tails x 11 filter conditions x 12 documents (nulls, non-containers and empty containers inside projected arrays) plus seeded random instantiations: projection (array, flatten, filter, object, slice) followed by selectors = projected array piped into [*] + selectors; x[*].e = map(&e, x) with nulls removed (x an array); (P).e = P | e; a.b = a | b (a not a projection, a non-null); {k: e}.k = e and [e1,e2,e3] = concatenation of [ei] on a non-null current node; the library is compared with itself (values canonically, errors by category); instances on which the identity does not apply are dropped and counted; non-trivial = left-hand side evaluates to a non-null, non-empty value",
+		Rule:          "identity schemata instantiated exhaustively over 15 bases x 60 selector tails (incl. index literals around the 8-bit boundaries: 127, 128, 200, 255, 256, -128, -129, -256) x 11 filter conditions x 16 documents (nulls, non-containers and empty containers inside projected arrays; two documents with 300-element arrays) plus seeded random instantiations: projection (array, flatten, filter, object, slice) followed by selectors = projected array piped into [*] + selectors; x[*].e = map(&e, x) with nulls removed (x an array); (P).e = P | e; a.b = a | b (a not a projection, a non-null); {k: e}.k = e and [e1,e2,e3] = concatenation of [ei] on a non-null current node; the library is compared with itself (values canonically, errors by category); instances on which the identity does not apply are dropped and counted; non-trivial = left-hand side evaluates to a non-null, non-empty value",
 		MinNontrivial: 2000,
 		Streams: []Stream{
 			{Name: "grid", Setup: c17Setup, N: c17GridN, Run: c17Grid, Exhaustive: true},
